@@ -183,9 +183,62 @@ func c14Huge(c *sim.Ctx) *sim.Violation {
 	return nil
 }
 
+// c14WillOwner: the program attaches its *Publish as a will, goes on using that
+// message (other payload, topic, QoS), and then decodes a CONNECT frame WITHOUT
+// a will into the same CONNECT (a reused packet object). The frame has nothing
+// to say about the program's message: it must be left as it is.
+func c14WillOwner(c *sim.Ctx) *sim.Violation {
+	t := c.T
+	g := gen.NewG(t, c.Thorough, 0)
+	w := mq.NewPublish()
+	w.SetTopicName(string(g.Str(g.Len1())))
+	w.SetPayload(g.Bin(g.Len1()))
+	w.SetQoS(uint8(t.Int(3)))
+	cn := mq.NewConnect()
+	cn.SetClientID("reused")
+	cn.SetWill(w)
+	var did []string
+	for k := 1 + t.Int(3); k > 0; k-- {
+		switch t.Int(4) {
+		case 0:
+			w.SetPayload(g.Bin(g.Len1()))
+			did = append(did, "SetPayload")
+		case 1:
+			w.SetTopicName(string(g.Str(g.Len1())))
+			did = append(did, "SetTopicName")
+		case 2:
+			w.SetRetain(t.Bool(1, 2))
+			did = append(did, "SetRetain")
+		default:
+			w.AddUserProp("k", string(g.Str(g.Len())))
+			did = append(did, "AddUserProp")
+		}
+	}
+	a := gen.Packet(t, gen.Cfg{Spec: true, NoHuge: true, Types: []byte{ref.Connect}})
+	a.Will = nil
+	a.ConnFlags &^= ref.CFWill | ref.CFWillQoS | ref.CFWillRetain
+	f, _ := ref.Encode(a)
+	_, body, _, _ := ref.SplitFrame(f)
+	before, _ := snapshot(w)
+	var err error
+	if pi := sim.Guard(func() { err = cn.UnmarshalBinary(body) }); pi != nil {
+		return nil // C04's business
+	}
+	after, _ := snapshot(w)
+	if fd, wv, gv := ref.FirstDiff(before, after); fd != "" {
+		return sim.V("C14/CONNECT/decode-into-used-receiver-changed-the-programs-will-message/"+fd,
+			"w attached with SetWill, then changed by the program %v; a CONNECT body WITHOUT a will (%s) decoded into that CONNECT (err=%v) changed accessor %s of w from %q to %q", did, hexs(body), err, fd, wv, gv)
+	}
+	c.Count("probe.will-less-CONNECT-decoded-into-a-CONNECT-whose-will-the-program-still-uses")
+	return nil
+}
+
 func runC14(c *sim.Ctx) *sim.Violation {
 	if c.Run == 5 {
 		return c14Huge(c)
+	}
+	if c.Run%20 == 7 {
+		return c14WillOwner(c)
 	}
 	t := c.T
 	if c.Run%200 == 3 {
